@@ -25,3 +25,14 @@ let model_line line =
      | Some (w, _) -> hexb src ^ " " ^ sk_word w
      | None -> hexb src ^ " none")
   | _ -> failwith "c15: bad case"
+
+(* here-document literal reader (Lex/Heredoc.v).  Case: dash \t delim(hex) \t text(hex) *)
+let hdoc_line line =
+  match String.split_on_char '\t' line with
+  | [dash; d; t] ->
+    let delim = runes_of_string (string_of_hex d) and text = runes_of_string (string_of_hex t) in
+    let enc l = hexb (List.concat_map (fun r -> encode_rune r) l) in
+    (match read_heredoc (nat_of_int (List.length text + 2)) (dash = "1") delim text [] with
+     | Some ((body, dline), rest) -> Printf.sprintf "ok %s %s %d" (enc body) (enc dline) (String.length (string_of_hex (enc rest)))
+     | None -> "err")
+  | _ -> failwith "hdoc: bad case"
